@@ -10,6 +10,9 @@ import (
 
 func Resources(c vw.ClusterSpec) config.ClusterResources {
 	var r config.ClusterResources
+	if c.Extras != "" {
+		r.BGPExtras = corev1.ConfigMap{Data: map[string]string{"extras": c.Extras}}
+	}
 	for _, p := range c.Pools {
 		r.Pools = append(r.Pools, p.CR())
 	}
